@@ -14,7 +14,7 @@ CHECK = {
     ],
     "min_nontrivial": (20000, 200000),
     "timeout": (900, 7200),
-    "rule": ("k-fold / random splitters from the factory on (a) every (n, folds) pair with n in 2..40, folds in 2..min(n,12): one uniformly "
+    "rule": ("[weights / losses / gradients also at tiny (1e-250..1e-10) and huge overall magnitudes] k-fold / random splitters from the factory on (a) every (n, folds) pair with n in 2..40, folds in 2..min(n,12): one uniformly "
              "drawn pair per case, the check loops over all 1025 seeds of splitter::seed (random splitter: x train percentages {10,25,50,80,90}; "
              "thorough: x all 81 percentages; all 81 percentages x seeds 0..15 for every pair through a replay file), (b) generated lists of 1..5000 distinct, non-contiguous, unsorted "
              "index values x folds 2..100 x seed 0..1024 x train percentage 10..90; oracle on every returned (train, valid) pair: both sorted, "
